@@ -31,6 +31,8 @@ def run(ctx):
     RC20.registry_panic_polarity(ctx, "R01.e")
     # unchecked accesses abort in a checked build (debug preconditions) and are UB otherwise
     R19.discharge_sites(ctx)
+    from . import r_bridge as RB
+    RB.bridge_arithmetic(ctx, "R01.j")
     # geometry of derived matches: a wrong length of a split half / joined word is an out-of-range slice later on
     from . import r_join as RJ
     RJ.split_formula(ctx, "R01.i")
